@@ -39,6 +39,13 @@ func c01Open(st *Store, root cid.Cid, how string) (datamodel.Node, error) {
 		return loadReified(ls, root, "unixfs")
 	case "unixfs-preload":
 		return loadReified(ls, root, "unixfs-preload")
+	case "NewUnixFSFile(reified)":
+		// the file constructor handed a node that is a (lazily) reified file already
+		rn, err := loadReified(ls, root, "unixfs")
+		if err != nil {
+			return nil, err
+		}
+		return file.NewUnixFSFile(context.Background(), rn, ls)
 	default:
 		ls.NodeReifier = unixfsnode.Reify
 		return ls.Load(ipld.LinkContext{}, cidlink.Link{Cid: root}, protoForCid(root))
@@ -98,6 +105,31 @@ func c01CheckRead(st *Store, root cid.Cid, data []byte, how string, bufSize int)
 		tail, err := io.ReadAll(plainReader{rs3})
 		if err != nil || !bytes.Equal(tail, data[int64(len(data))-k:]) {
 			return fmt.Errorf("%s: tail after io.Copy + relative seek: %d bytes (err %v), want %d", how, len(tail), err, k)
+		}
+	}
+	// a streamed read in which some Read calls pass an empty buffer (legal for any io.Reader: it returns 0 bytes and must
+	// not be mistaken for the end)
+	{
+		rs7, _ := lb.AsLargeBytes()
+		var out7 []byte
+		buf := make([]byte, bufSize)
+		for i := 0; i < 1<<22; i++ {
+			if i%3 == 1 {
+				if n, err := rs7.Read(buf[:0]); n != 0 || (err != nil && !(err == io.EOF && len(out7) == len(data))) {
+					return fmt.Errorf("%s: Read with an empty buffer after %d of %d bytes returned (%d, %v)", how, len(out7), len(data), n, err)
+				}
+			}
+			n, err := rs7.Read(buf)
+			out7 = append(out7, buf[:n]...)
+			if err == io.EOF {
+				break
+			}
+			if err != nil {
+				return fmt.Errorf("%s: streamed read with empty reads in between: %v", how, err)
+			}
+		}
+		if !bytes.Equal(out7, data) {
+			return fmt.Errorf("%s: streamed read (buf %d) with zero-length reads in between returned %d bytes, want %d (first diff at %d)", how, bufSize, len(out7), len(data), firstDiff(out7, data))
 		}
 	}
 	// io.Copy (which uses a WriterTo when the reader offers one) from a reader that is not at the start: positioned by a
@@ -242,6 +274,23 @@ func TestC01_P_OwnBuilder(t *testing.T) {
 		must(t, "BuildUnixFSFile", func() { root, _, err = buildFile(st, data, ck.Name, w) })
 		if err != nil {
 			t.Fatalf("C01: build: %v", err)
+		}
+		if len(data) > 0 && rapid.IntRange(0, 4).Draw(t, "brokenSource") == 0 {
+			// a source that breaks off before the end (its error may wrap io.EOF, as "upload interrupted: EOF" does) cannot
+			// give a file that reads back as the source: the build must fail. (The one exception is an error wrapping
+			// io.ErrUnexpectedEOF, which the chunker shared with the reference importer takes for the end of the input.)
+			kind := genFaultKind(t)
+			if faultKinds[kind].Inner != io.ErrUnexpectedEOF {
+				cut := rapid.IntRange(0, len(data)-1).Draw(t, "cut")
+				src := &failingSource{data: data, frags: []int{rapid.SampledFrom([]int{1, 7, 64, 1 << 20}).Draw(t, "frag")}, failAfter: cut, together: rapid.Bool().Draw(t, "together"),
+					err: &ioFault{what: "source reader", inner: faultKinds[kind].Inner}}
+				var broot cid.Cid
+				var berr error
+				must(t, "BuildUnixFSFile from a broken source", func() { broot, _, berr = buildFileR(NewStore().LinkSystem(), src, ck.Name, w) })
+				if berr == nil {
+					t.Fatalf("C01: source of %d bytes breaking off after %d (%s): the builder reported success and returned %s", len(data), cut, faultKinds[kind].Name, broot)
+				}
+			}
 		}
 		must(t, "read via "+how, func() { err = c01CheckRead(st, root, data, how, buf) })
 		if err != nil {
